@@ -45,19 +45,20 @@ type Ob struct {
 }
 
 type RunOut struct {
-	Obs       []Ob     `json:"obs"`
-	Result    string   `json:"result"` // Coq term of the final result, "" if Run did not return
-	ResultStr string   `json:"result_str"`
-	Deadlock  bool     `json:"deadlock"`
-	Overrun   bool     `json:"overrun"`
-	Unparsed  []string `json:"unparsed,omitempty"`
-	Ambiguous bool     `json:"ambiguous,omitempty"` // a when_changed callee's line had more than one possible call site
-	Schedule  []string `json:"schedule"`
-	Stacks    string   `json:"stacks,omitempty"`
-	Procs     int      `json:"procs"`
-	Steps     int      `json:"steps"`
-	Taken     []int    `json:"-"` // systematic enumeration: choice indices taken / alternatives at each step
-	Width     []int    `json:"-"`
+	Obs          []Ob     `json:"obs"`
+	Result       string   `json:"result"` // Coq term of the final result, "" if Run did not return
+	ResultStr    string   `json:"result_str"`
+	Deadlock     bool     `json:"deadlock"`
+	Overrun      bool     `json:"overrun"`
+	Unparsed     []string `json:"unparsed,omitempty"`
+	Inconclusive string   `json:"inconclusive,omitempty"` // no verdict (why)
+	Ambiguous    bool     `json:"ambiguous,omitempty"`    // a when_changed callee's line had more than one possible call site
+	Schedule     []string `json:"schedule"`
+	Stacks       string   `json:"stacks,omitempty"`
+	Procs        int      `json:"procs"`
+	Steps        int      `json:"steps"`
+	Taken        []int    `json:"-"` // systematic enumeration: choice indices taken / alternatives at each step
+	Width        []int    `json:"-"`
 }
 
 var (
@@ -599,7 +600,7 @@ func RunCyclicCLI(p *Prog, deadline time.Duration) (*RunOut, error) {
 	if err := os.WriteFile(filepath.Join(dir, "Taskfile.yml"), y, 0o644); err != nil {
 		return nil, err
 	}
-	args := []string{"-d", dir, "--silent"}
+	args := []string{"-d", dir, "--silent", "-v"}
 	if p.Cfg.N > 0 {
 		args = append(args, "-C", fmt.Sprint(p.Cfg.N))
 	}
@@ -611,13 +612,17 @@ func RunCyclicCLI(p *Prog, deadline time.Duration) (*RunOut, error) {
 	// 6 GB of address space: a runaway recursion dies instead of eating the machine
 	cmd := osexec.CommandContext(ctx, "sh", append([]string{"-c", "ulimit -v 6000000; exec \"$0\" \"$@\"", bin}, args...)...)
 	cl := &countLines{}
+	st := &countStarts{}
 	cmd.Stdout = cl
-	cmd.Stderr = devNull{}
+	cmd.Stderr = st
+	// a run that the call limit ends starts every task fewer than MaximumTaskCall times
+	startBound := int64(len(p.Tasks)*p.Cfg.MaxCall + 50)
 	if err := cmd.Start(); err != nil {
 		return nil, err
 	}
 	// watchdog: no CPU time consumed and nothing printed for 3 s = the process is blocked
 	blocked := make(chan struct{})
+	runaway := make(chan struct{})
 	stop := make(chan struct{})
 	go func() {
 		last, idle := int64(-1), 0
@@ -630,14 +635,20 @@ func RunCyclicCLI(p *Prog, deadline time.Duration) (*RunOut, error) {
 			cl.mu.Lock()
 			n := int64(cl.n)
 			cl.mu.Unlock()
-			cur := procTicks(cmd.Process.Pid) + n
+			ns := st.count()
+			if ns > startBound {
+				close(runaway)
+				_ = cmd.Process.Kill()
+				return
+			}
+			cur := procTicks(cmd.Process.Pid) + n + ns
 			if cur == last {
 				idle++
 			} else {
 				idle = 0
 			}
 			last = cur
-			if idle >= 6 {
+			if idle >= 12 {
 				close(blocked)
 				_ = cmd.Process.Kill()
 				return
@@ -655,14 +666,18 @@ func RunCyclicCLI(p *Prog, deadline time.Duration) (*RunOut, error) {
 	select {
 	case <-blocked:
 		out.Deadlock = true
-		out.Stacks = fmt.Sprintf("no CPU time and no output for 3 s (total %s of CPU time, %d probe lines): blocked", cpu, cl.n)
+		out.Stacks = fmt.Sprintf("no CPU time and no output for 6 s (total %s of CPU time, %d probe lines, %d task starts): blocked", cpu, cl.n, st.count())
+		return out, nil
+	case <-runaway:
+		// not a matter of time: more task starts than the call limit can let through
+		out.Overrun = true
+		out.Stacks = fmt.Sprintf("%d task starts, more than %d tasks x MaximumTaskCall allow (%s of CPU time, %d probe lines): the call limit does not end the cycle", st.count(), len(p.Tasks), cpu, cl.n)
 		return out, nil
 	default:
 	}
 	if ctx.Err() != nil {
-		// killed at the deadline while still consuming CPU time
-		out.Overrun = true
-		out.Stacks = fmt.Sprintf("killed after %s with %s of CPU time and %d probe lines: still running", deadline, cpu, cl.n)
+		// slow machine: neither blocked nor beyond the bound when the (generous) deadline struck
+		out.Inconclusive = fmt.Sprintf("killed after %s with %s of CPU time, %d probe lines, %d task starts (bound %d): no verdict", deadline, cpu, cl.n, st.count(), startBound)
 		return out, nil
 	}
 	code := 0
@@ -699,4 +714,131 @@ func procTicks(pid int) int64 {
 		}
 	}
 	return 0
+}
+
+// Scenario: a small hand-written project run by the real Executor without the scheduler; judged on
+// the classified result, on text that must not be printed and on how often a marker is printed.
+type Scenario struct {
+	Name    string            `json:"name"`
+	Files   map[string]string `json:"files"`
+	Calls   []string          `json:"calls"`
+	Want    string            `json:"want"`             // classified result, "" = any error
+	Forbid  string            `json:"forbid,omitempty"` // must not appear in the output
+	Marker  string            `json:"marker,omitempty"` // counted in the output
+	WantN   int               `json:"want_n,omitempty"`
+	Comment string            `json:"comment,omitempty"`
+}
+
+type textSink struct {
+	mu sync.Mutex
+	b  strings.Builder
+}
+
+func (t *textSink) Write(p []byte) (int, error) {
+	t.mu.Lock()
+	t.b.Write(p)
+	t.mu.Unlock()
+	return len(p), nil
+}
+
+// RunScenario returns "" when the scenario behaves as wanted, else what differs.
+func RunScenario(sc Scenario) (string, error) {
+	dir, err := os.MkdirTemp("", "vh-scn")
+	if err != nil {
+		return "", err
+	}
+	defer os.RemoveAll(dir)
+	for name, body := range sc.Files {
+		if err := os.MkdirAll(filepath.Dir(filepath.Join(dir, name)), 0o755); err != nil {
+			return "", err
+		}
+		if err := os.WriteFile(filepath.Join(dir, name), []byte(body), 0o644); err != nil {
+			return "", err
+		}
+	}
+	sink := &textSink{}
+	e := task.NewExecutor(task.WithDir(dir), task.WithStdout(sink), task.WithStderr(devNull{}), task.WithSilent(true))
+	if err := e.Setup(); err != nil {
+		return "", fmt.Errorf("setup %s: %w", sc.Name, err)
+	}
+	var calls []*task.Call
+	for _, c := range sc.Calls {
+		calls = append(calls, &task.Call{Task: c})
+	}
+	res, _ := classify(e.Run(context.Background(), calls...))
+	out := sink.b.String()
+	var diff []string
+	if sc.Want == "" {
+		if res == "ROk" {
+			diff = append(diff, "result ROk, an error was expected")
+		}
+	} else if res != sc.Want {
+		diff = append(diff, fmt.Sprintf("result %s, expected %s", res, sc.Want))
+	}
+	if sc.Forbid != "" && strings.Contains(out, sc.Forbid) {
+		diff = append(diff, fmt.Sprintf("%q was printed (a command that must not run ran)", sc.Forbid))
+	}
+	if sc.Marker != "" {
+		if n := strings.Count(out, sc.Marker); n != sc.WantN {
+			diff = append(diff, fmt.Sprintf("%q printed %d times, expected %d", sc.Marker, n, sc.WantN))
+		}
+	}
+	return strings.Join(diff, "; "), nil
+}
+
+// GuardScenarios (C13): guards that depend on HOW a task is named or on the values of one call.
+func GuardScenarios() []Scenario {
+	internalTf := "version: '3'\ntasks:\n  default: {cmds: [echo public]}\n  helper: {internal: true, aliases: [h], cmds: [echo INTERNAL-RAN]}\n  'gen-*': {internal: true, cmds: [echo INTERNAL-RAN]}\n"
+	enumTf := "version: '3'\ntasks:\n  deploy:\n    run: once\n    requires: {vars: [{name: MODE, enum: [dev, prod]}]}\n    cmds: [echo deploy-ran]\n" +
+		"  good: {deps: [{task: deploy, vars: {MODE: dev}}], cmds: [echo good-ran]}\n" +
+		"  bad: {deps: [{task: deploy, vars: {MODE: bogus}}], cmds: [echo BAD-RAN]}\n" +
+		"  pipeline: {cmds: [{task: deploy, vars: {MODE: dev}}, {task: deploy, vars: {MODE: bogus}}, echo BAD-RAN]}\n"
+	inc := map[string]string{
+		"Taskfile.yml": "version: '3'\nincludes:\n  priv: {taskfile: ./priv.yml, internal: true}\ntasks:\n  default: {cmds: [echo public]}\n",
+		"priv.yml":     "version: '3'\ntasks:\n  default: {cmds: [echo INTERNAL-RAN]}\n",
+	}
+	one := func(body string) map[string]string { return map[string]string{"Taskfile.yml": body} }
+	return []Scenario{
+		{Name: "internal-by-name", Files: one(internalTf), Calls: []string{"helper"}, Want: "(RErr (ECode 202))", Forbid: "INTERNAL-RAN"},
+		{Name: "internal-by-alias", Files: one(internalTf), Calls: []string{"h"}, Want: "(RErr (ECode 202))", Forbid: "INTERNAL-RAN"},
+		{Name: "internal-by-wildcard", Files: one(internalTf), Calls: []string{"gen-x"}, Want: "(RErr (ECode 202))", Forbid: "INTERNAL-RAN"},
+		{Name: "internal-second-argument", Files: one(internalTf), Calls: []string{"default", "h"}, Want: "(RErr (ECode 202))", Forbid: "INTERNAL-RAN"},
+		{Name: "internal-include-namespace", Files: inc, Calls: []string{"priv"}, Want: "(RErr (ECode 202))", Forbid: "INTERNAL-RAN"},
+		{Name: "enum-on-shared-task-via-deps", Files: one(enumTf), Calls: []string{"good", "bad"}, Want: "(RErr (ECode 207))", Forbid: "BAD-RAN"},
+		{Name: "enum-on-shared-task-via-calls", Files: one(enumTf), Calls: []string{"pipeline"}, Want: "(RErr (ETaskRun None))", Forbid: "BAD-RAN"},
+		{Name: "enum-ok-control", Files: one(enumTf), Calls: []string{"good"}, Want: "ROk", Marker: "deploy-ran", WantN: 1},
+	}
+}
+
+// WhenKeyScenarios (C06): a when_changed task is one execution per distinct ASSIGNMENT of values to
+// its variables, also when the values only reach its env or the vars of its own sub-calls.
+func WhenKeyScenarios() []Scenario {
+	calls := "      - {task: W, vars: {A: a, B: b}}\n      - {task: W, vars: {A: b, B: a}}\n      - {task: W, vars: {A: a, B: a}}\n      - {task: W, vars: {A: b, B: b}}\n      - {task: W, vars: {A: a, B: b}}\n"
+	mk := func(w string) map[string]string {
+		return map[string]string{"Taskfile.yml": "version: '3'\ntasks:\n  default:\n    cmds:\n" + strings.ReplaceAll(calls, "W", "w") + w}
+	}
+	return []Scenario{
+		{Name: "when-changed-env-only", Files: mk("  w: {run: when_changed, env: {E1: '{{.A}}', E2: '{{.B}}'}, cmds: ['echo w-ran $E1 $E2']}\n"), Calls: []string{"default"}, Want: "ROk", Marker: "w-ran", WantN: 4},
+		{Name: "when-changed-subcall-only", Files: mk("  w: {run: when_changed, cmds: [{task: leaf, vars: {X: '{{.A}}', Y: '{{.B}}'}}]}\n  leaf: {cmds: ['echo w-ran {{.X}} {{.Y}}']}\n"), Calls: []string{"default"}, Want: "ROk", Marker: "w-ran", WantN: 4},
+		{Name: "when-changed-cmd-text", Files: mk("  w: {run: when_changed, cmds: ['echo w-ran {{.A}} {{.B}}']}\n"), Calls: []string{"default"}, Want: "ROk", Marker: "w-ran", WantN: 4},
+		{Name: "when-changed-unused-values", Files: mk("  w: {run: when_changed, cmds: ['echo w-ran']}\n"), Calls: []string{"default"}, Want: "ROk", Marker: "w-ran", WantN: 4},
+	}
+}
+
+type countStarts struct {
+	mu sync.Mutex
+	n  int64
+}
+
+func (c *countStarts) Write(p []byte) (int, error) {
+	c.mu.Lock()
+	c.n += int64(strings.Count(string(p), "\" started\n"))
+	c.mu.Unlock()
+	return len(p), nil
+}
+
+func (c *countStarts) count() int64 {
+	c.mu.Lock()
+	defer c.mu.Unlock()
+	return c.n
 }
